@@ -67,8 +67,10 @@ var builtinDecos = []string{
 }
 
 // NDecoChoices: the six built-ins, one custom decoration completed by
-// Populate, and one name that is not registered (rendering must then fail).
-const NDecoChoices = 8
+// Populate, one name that is not registered (rendering must then fail), and
+// one decoration derived from a registered one by copying it and changing two
+// glyphs (value copies of a Decoration must be independent of each other).
+const NDecoChoices = 9
 
 // htmlFlagMask: bit0 row-class generator, bit1 caption/id/class, bit3 a
 // TemplateName shared by every wrapper that sets it.
@@ -83,6 +85,9 @@ func DecoName(i int) string {
 	}
 	if i == len(builtinDecos) {
 		return "custom"
+	}
+	if i == len(builtinDecos)+2 {
+		return "derived"
 	}
 	return unknownDecoName
 }
@@ -176,6 +181,12 @@ func (w *World) decorate(tt *texttable.TextTable, spec RenderSpec) {
 		tt.SetDecoration(customDeco())
 		return
 	}
+	if name == "derived" {
+		d := decoration.Named(decoration.D_UTF8_LIGHT)
+		d.TopLeft, d.HRule = "*", "~"
+		tt.SetDecoration(d)
+		return
+	}
 	tt.SetDecorationNamed(name)
 }
 
@@ -209,7 +220,7 @@ func (w *World) autoStyle(spec RenderSpec) string {
 		return "markdown"
 	}
 	name := DecoName(spec.Deco)
-	if name == "custom" {
+	if name == "custom" || name == "derived" {
 		name = decoration.D_UTF8_HEAVY
 	}
 	if spec.Flags&2 != 0 && name == decoration.D_UTF8_HEAVY {
@@ -309,7 +320,7 @@ func AllRenderSpecs() []RenderSpec {
 					continue
 				}
 				for d := 0; d < NDecoChoices; d++ {
-					if (via == ViaAuto || via == ViaAutoFn) && DecoName(d) == "custom" {
+					if (via == ViaAuto || via == ViaAutoFn) && (DecoName(d) == "custom" || DecoName(d) == "derived") {
 						continue
 					}
 					out = append(out, RenderSpec{Format: f, Via: via, Deco: d, Flags: d & 1})
